@@ -77,24 +77,25 @@ def _collect(ctx, dumps):
     reln, catn, subn, rn = dumps[1].result()
     # calls differing only in the number of fall-backs are one action on a real network (not scriptable there)
     pn = reln.cover_paths(max_extra=5)
-    tn = M.replay_net(reln, pn, ctx.seed, every_maker=not quick)
+    tn = M.replay_net(reln, pn, ctx.seed, every_maker=False)
     ctx.extra["net_relation"] = {"states": rn.distinct, "edges": len(reln.edges), "paths": len(pn), "real_runs": len(tn)}
     traces += tn
     timing["net_replay"] = round(time.time() - t0, 1)
     # ---- M3 walks
     t0 = time.time()
     nw = 12 if quick else 60
+    depth = 8 if quick else 12
     strs = ["net", "add_node", "layer"]
     assign = [{"a": "aux", "c": "Leaf"}, {"a": "net", "c": "Leaf"}, {"a": "net", "c": "Mid"}, {"a": "net2", "c": "Leaf"}]
     for root in ("Root0", "Root1", "Root2", "RootM", "RootW"):
         for j in range(nw):
-            traces.append(M.random_walk("custom", root, (lambda rc=root: M.custom_factory(rc)), cat, strs, assign, 8,
+            traces.append(M.random_walk("custom", root, (lambda rc=root: M.custom_factory(rc)), cat, strs, assign, depth,
                                         ctx.seed * 1000 + j, lambda c, node: M.custom_factory(c)))
     nr = 6 if quick else 30
     for name in M.real_makers():
         mk, rcat, _, rassign = M.real_setup(name)
         for j in range(nr):
-            traces.append(M.random_walk("real", name, mk, rcat, M.REAL_STRS, rassign, 7, ctx.seed * 1000 + j, M.real_assign_factory))
+            traces.append(M.random_walk("real", name, mk, rcat, M.REAL_STRS, rassign, depth - 1, ctx.seed * 1000 + j, M.real_assign_factory))
     timing["walks"] = round(time.time() - t0, 1)
     ctx.extra.setdefault("timing_s", {}).update(timing)
     return traces
@@ -154,13 +155,18 @@ def run(ctx):
     from concurrent.futures import ThreadPoolExecutor
     from ..drive import mutreg as M
     quick = ctx.quick
-    with ThreadPoolExecutor(max_workers=2) as ex:      # the two relation dumps run while TLC model-checks
+
+    def mc():
+        ctx.mc("MutReg_MC", "MutReg_MC.cfg" if quick else "MutReg_MCt.cfg", must_cover=MUST, workers=8)
+        ctx.mc("MutReg_MC", "MutReg_MCnet.cfg" if quick else "MutReg_MCnett.cfg", must_cover=MUST, workers=8)
+
+    with ThreadPoolExecutor(max_workers=3) as ex:      # model checking (M1) runs while the relations are dumped and replayed (M2, M3)
+        m1 = ex.submit(mc)
         dumps = [ex.submit(M.load_relation, "MutReg_Dump.cfg" if quick else "MutReg_Dumpt.cfg"),
                  ex.submit(M.load_relation, "MutReg_Dumpnet.cfg" if quick else "MutReg_Dumpnett.cfg")]
-        ctx.mc("MutReg_MC", "MutReg_MC.cfg" if quick else "MutReg_MCt.cfg", must_cover=MUST)
-        ctx.mc("MutReg_MC", "MutReg_MCnet.cfg" if quick else "MutReg_MCnett.cfg", must_cover=MUST)
         traces = _collect(ctx, dumps)
-    _judge(ctx, traces)
+        _judge(ctx, traces)
+        m1.result()
     for t in (traces[0], traces[len(traces) // 2], traces[-1]):
         ctx.sample({"family": t["cfg"]["family"], "root": t["cfg"]["root"], "history": t["actions"][:6],
                     "registry_after": [(".".join(n["p"]) or "<root>", [".".join(m) for m in n["L"]], [".".join(m) for m in n["N"]],
